@@ -487,7 +487,7 @@ func (r *runner) offer(id int, o Offer) {
 	hn := hookN
 	hookMu.Unlock()
 	listen := 0
-	deadline := time.After(2 * time.Second)
+	deadline := time.After(30 * time.Second)
 	if hn == 0 {
 		deadline = time.After(300 * time.Microsecond)
 		runtime.Gosched()
